@@ -70,6 +70,9 @@ def parseOp (f : List String) : Option Op :=
   -- how the channel reached OPEN on the hub: a top-level MsgChannelOpenAck, one nested in authz.MsgExec, or Try/Confirm
   | "chopen" :: r :: _ => some (.chopen (idx! r) (match kv f "via" with | "ack" => 0 | "nested" => 1 | _ => 2))
   | "premd" :: r :: _ => some (.premd (idx! r))
+  -- MsgUpdateState for the next n blocks; MsgRollappFraudProposal with fraud height h from the authority or somebody else
+  | "update" :: r :: _ => some (.update (idx! r) (kvN f "n"))
+  | "fork" :: r :: _ => some (.fork (idx! r) (kv f "by" = "gov") (kvN f "h"))
   | "plainch" :: _ => some .plainch
   | "send" :: c :: _ => some (.send (idx! c))
   | "recv" :: c :: _ => some (.recv (idx! c) (kvN f "ph") (parsePkt f))
@@ -101,7 +104,7 @@ def renderRa (r : Ra) : String :=
   -- after an IRO settlement the IRO module moves its vouchers on (pool, incentives): not part of this model
   let bal := (r.bal.filter (fun x => x.2 != 0 && !(x.1 == iroAddr && r.plan.isSome))).foldl (fun acc x => insSorted x acc) []
   let bals := if bal.isEmpty then "-" else joinWith "," (bal.map fun x => s!"{x.1}:{x.2}")
-  s!" | r{r.id} l={b2s r.launched} gi={renderGI r.gi} pl={pl} plan={plan} te={te} ps={ps} ch={ch} tph={r.tph} no={r.nOpen} md={b2s r.md} bal={bals}"
+  s!" | r{r.id} l={b2s r.launched} gi={renderGI r.gi} pl={pl} plan={plan} te={te} ps={ps} ch={ch} tph={r.tph} no={r.nOpen} md={b2s r.md} lh={r.lastH} fz={b2s r.frozen} rev={r.rev} bal={bals}"
 
 def gerrName : GErr → String
   | .badPrefix => "badPrefix" | .badChecksum => "badChecksum" | .noNative => "noNative" | .badMetadata => "badMetadata"
